@@ -538,7 +538,7 @@ class C04(Prop):
     driver = 'Drivers/C04.lean'
     theorems = ['C04_patterns_pinned', 'C04_style_widths', 'C04_chunks_lossless', 'C04_width', 'C04_width_ok',
                 'C04_str_item', 'C04_str_item_terminates', 'C04_chunk_bounds_outside_literals',
-                'C04_tokens_full_false', 'C04_tokens_partial', 'C04_unwrap_id_partial']
+                'C04_tokens_full_false', 'C04_tokens_partial', 'C04_unwrap_id_partial', 'C04_str_raises_witness']
     design_ref = 'DESIGN.md 4.A C04'
     level_text = (
         'Lean theorems about a hand-written model that mirrors JoinableStringList (__init__, _add_item_to_line, _to_str, '
@@ -558,7 +558,8 @@ class C04(Prop):
         'are checked on every generated input by the correspondence (model output = real str()/format_line output) and by '
         'the direct oracle (exact de-continuation identity against the real code at unbounded width, width statement, and '
         'equality of the token sequences computed by a free-form Fortran lexer with & continuation handling). Two further '
-        'defect classes of nested lists found by the search (nested-empty-item, nested-rewrap) are known findings, oracle-level.')
+        'defect classes of nested lists found by the search (nested-empty-item, nested-rewrap) are known findings, oracle-level; '
+        'a third one is a crash (split-none-crash: str() raises AttributeError), reproduced by the model (C04_str_raises_witness).')
     level_note = (
         'Trusted: the hand-written model (tied by correspondence on synthetic lists/trees, format_line calls and every list '
         'captured while fgen prints generated routines), the Python lexer and width oracle, Lean kernel. Modelled, not verified: '
@@ -585,7 +586,7 @@ class C04(Prop):
                          'classifier agreement: knownDQ / knownNE / knownRW (Lean) = harness classifiers on every str request']
 
     def classes(self):
-        return ['doubled-quote-split', 'nested-empty-item', 'nested-rewrap']
+        return ['doubled-quote-split', 'nested-empty-item', 'nested-rewrap', 'split-none-crash']
 
     # ---- tables regenerated from the repo
     def tables(self):
@@ -777,7 +778,7 @@ class C04(Prop):
         except AssertionError:
             return []       # the constructor refuses this width/cont
         except AttributeError as e:
-            return [Failure(f'wrapping raised AttributeError: {e}')]
+            return [Failure(f'str() of the list raised AttributeError: {e}', 'split-none-crash')]
         ne = any(nested_empty(o) for o in objs)
         rw = any(nested_rewrap(o) for o in objs)
         dq = dq_break(out, c0, c1)
